@@ -214,6 +214,27 @@ def gen(seed, tier):
         else:
             pipe = rng2.choice(comps[D])
         yield _case(t, D, dflt, pipe, shape=([n] * D if rng2.random() < 0.3 else None))
+    # --- declared shapes that differ from rank to rank (and are larger than needed), depth 3-4:
+    #     every (k, levels, tuple|pair|linear) flatten followed by its unflatten; the declared shape
+    #     of every result must contain the stored coordinates, with the coordinates' own nesting
+    for i in range(300 if tier == "quick" else 6000):
+        D = rng2.choice([3, 4, 4])
+        n = rng2.choice([2, 3])
+        dflt = rng2.choice([0, 7])
+        pool = (1, 2, -3, 5) if dflt == 0 else (1, 2, -3, 0)
+        exts = list(range(n, n + D))
+        rng2.shuffle(exts)
+
+        def clip(tree, level):        # every rank uses its own extent fully: coordinates 0 .. exts[level]-1
+            return [[cc, (clip(sub, level + 1) if level + 1 < D else sub)] for cc, sub in tree if cc < exts[level]]
+        t = clip(H.gen_tree(rng2, D, max(exts), pool, dflt, 0.3, 0.1, 0.08, 0.04), 0)
+        k = rng2.randrange(D - 1)
+        L = rng2.randrange(1, D - k)
+        st = rng2.choice(["tuple", "pair", "pair", "linear"])
+        pipe = [{"op": "flatten", "k": k, "levels": L, "style": st}]
+        if st != "linear":
+            pipe.append({"op": "unflatten", "k": k, "levels": L})
+        yield _case(t, D, dflt, pipe, shape=exts)
     # --- rank format "U" on the operand, small scope: every depth-2 tensor x {CU, UC, UU}
     upipes = [[{"op": "flatten", "k": 0, "levels": 1, "style": "tuple"}, {"op": "unflatten", "k": 0, "levels": 1}],
               [{"op": "flatten", "k": 0, "levels": 1, "style": "linear"}],
@@ -382,6 +403,47 @@ def _dflt_of(t, vk, dflt=None):
     return d
 
 
+def _tt(c):
+    return c if isinstance(c, tuple) else (c,)
+
+
+def _expected_coords(root, k, L, style):
+    """the coordinates (as Python objects, nesting included) the flattened rank must hold: one per stored
+    path through ranks k .. k+L — tuple: the flat tuple of the components of all of them (a coordinate
+    that is itself a tuple is spliced in); pair: right-nested pairs (c_k, (c_k+1, (.. c_k+L)))"""
+    Fiber = H.ft().Fiber
+
+    def fibers_at(f, d):
+        if d == 0:
+            return [f]
+        return [g for p in f.payloads if isinstance(p, Fiber) for g in fibers_at(p, d - 1)]
+
+    def paths(f, n):
+        if n == 0:
+            return [(c,) for c in f.coords]
+        return [(c,) + rest for c, p in zip(f.coords, f.payloads) if isinstance(p, Fiber)
+                for rest in paths(p, n - 1)]
+    out = set()
+    for f in fibers_at(root, k):
+        for path in paths(f, L):
+            if style == "tuple":
+                out.add(tuple(x for c in path for x in _tt(c)))
+            else:
+                nested = path[-1]
+                for c in reversed(path[:-1]):
+                    nested = (c, nested)
+                out.add(nested)
+    return out
+
+
+def _fits(c, s):
+    """coordinate c lies inside the declared extent s (same nesting for tuple / pair coordinates)"""
+    if isinstance(c, tuple) or isinstance(s, tuple):
+        return isinstance(c, tuple) and isinstance(s, tuple) and len(c) == len(s) and \
+            all(_fits(x, y) for x, y in zip(c, s))
+    return isinstance(c, int) and isinstance(s, int) and 0 <= c < s
+
+
 def _fiber_ids(f, acc):
     """ids of every Fiber / boxed leaf object reachable from f, with repetitions"""
     Fiber = H.ft().Fiber
@@ -443,20 +505,38 @@ def run(case):
             ids_ = cur.getRankIds()
             st["ids_mixed"] = any(isinstance(x, list) for x in ids_) and any(not isinstance(x, list) for x in ids_)
         try:
-            in_int = op["op"] in ("flatten", "merge") and all(
-                _nesting(c) == "int" for j in range(op["levels"] + 1) for c in _coords_at(cur.getRoot(), op["k"] + j))
+            want_coords = None
+            if op["op"] in ("flatten", "merge") and op["style"] in ("tuple", "pair"):
+                want_coords = _expected_coords(cur.getRoot(), op["k"], op["levels"], op["style"])
             nxt = _apply(cur, op)
             out = {"tree": _snap(nxt.getRoot(), vk, dflt), "dflt": _dflt_of(nxt, vk, dflt), "depth": len(nxt.getRankIds())}
             m = H.rank_mirror(nxt)
             if m:
                 side[f"rank_mirror[{i}:{op['op']}]"] = False
-            if in_int and op["style"] in ("tuple", "pair"):
-                want = {"tuple": "flat", "pair": "pair"}[op["style"]]
-                got = {_nesting(c) for c in _coords_at(nxt.getRoot(), op["k"])}
-                if op["style"] == "pair" and op["levels"] == 1:
-                    want = "flat"          # a pair of two ints is a flat 2-tuple
-                if got - {want}:
-                    side[f"coord_nesting[{op['style']}]"] = False
+            if want_coords is not None:
+                got = set(_coords_at(nxt.getRoot(), op["k"]))
+                if st.get("formatU"):
+                    # a "U" rank is iterated over its whole extent: coordinates that were not stored
+                    # appear; only their form (nesting) is compared, with that of the stored paths
+                    sig = lambda c: tuple(sig(x) for x in c) if isinstance(c, tuple) else 0
+                    bad = bool(want_coords) and not {sig(c) for c in got} <= {sig(c) for c in want_coords}
+                else:
+                    bad = not got <= want_coords
+                if bad:
+                    side[f"coord_form[{i}:{op['style']}]"] = False
+            # a declared (authoritative) shape of the result contains every stored coordinate
+            if op["op"] in ("swizzle", "swap", "unflatten") or \
+                    (op["op"] in ("flatten", "merge") and op["style"] in ("tuple", "pair", "linear")):
+                rs = nxt.getShape(authoritative=True)
+                if rs and op["op"] in ("flatten", "merge") and op["style"] == "tuple" and any(
+                        isinstance(c, tuple) for j in range(op["levels"] + 1)
+                        for c in _coords_at(cur.getRoot(), op["k"] + j)):
+                    st["tuple_on_tuple"] = True
+                if rs:
+                    for j, ext in enumerate(rs):
+                        if not all(_fits(c, ext) for c in _coords_at(nxt.getRoot(), j)):
+                            side[f"coords_in_declared_shape[{i}:{op['op']}]"] = False
+                            break
             # a result is a tree: no fiber / leaf box is reachable through two positions, and none of
             # them is an object of the operand
             rids = _fiber_ids(nxt.getRoot(), [])
@@ -508,6 +588,10 @@ def signature(case, verdict, failed):
     agree = bool(verdict.get("agree"))
     tags = set(verdict.get("tags", []))
     fs = _failing_stage(case)
+    if failed and all(f.startswith("coords_in_declared_shape") for f in failed) and \
+            all(s.get("tuple_on_tuple") for s in case.get("stages", [])
+                if f"coords_in_declared_shape[{case['stages'].index(s)}:{s['op']}]" in failed):
+        return "flatten:tuple-on-tuple:shape-not-spliced"
     if failed == ["spec"] and case.get("ucollide") and "formatU" in tags:
         return "merge:formatU:default-elements-take-part"
     if failed == ["spec"] and agree:
